@@ -224,6 +224,19 @@ void drv_apply(const char* op)
     else if(IS("findlastc")) { if(n >= 0 && n <= 255) { const String& cs = s; r = idx_of(cs, cs.findLast((char)n)); } else ok = 0; }
     else if(IS("findcs")) { if(nulfreeS(s) && n >= 1 && n <= 255 && n2 >= 0) { const String& cs = s; const char* p = cs.find((char)n, (usize)n2); r = idx_of(cs, p); } else ok = 0; }
     else if(IS("find")) { if(nulfreeS(s) && nulfree(d, dn)) { const String& cs = s; const char* p = cs.find((const char*)d); r = idx_of(cs, p); } else ok = 0; }
+    else if(IS("findof"))
+    {
+      // findOneOf(chars), findOneOf(chars, start) (member and static) and findLastOf(chars) (member and static)
+      if(nulfreeS(s) && nulfree(d, dn) && n >= 0)
+      {
+        const String& cs = s; const char* base = cs;
+        long f0 = idx_of(cs, cs.findOneOf((const char*)d)), fn = idx_of(cs, cs.findOneOf((const char*)d, (usize)n));
+        long fl = idx_of(cs, cs.findLastOf((const char*)d));
+        if(idx_of(cs, String::findOneOf(base, (const char*)d)) != f0 || idx_of(cs, String::findLastOf(base, (const char*)d)) != fl) f0 = -7;   // static versions disagree
+        r = (f0 + 1) + ((long)cs.length() + 2) * (fn + 1); rn = fl;
+      }
+      else ok = 0;
+    }
     else if(IS("finds")) { if(nulfreeS(s) && nulfree(d, dn) && dn > 0 && n >= 0) { const String& cs = s; const char* p = cs.find((const char*)d, (usize)n); r = idx_of(cs, p); } else ok = 0; }
     else if(IS("findlast")) { if(nulfreeS(s) && nulfree(d, dn)) { const String& cs = s; const char* p = cs.findLast((const char*)d); r = idx_of(cs, p); } else ok = 0; }
     else if(IS("substr"))
